@@ -5,7 +5,7 @@ obligation streams by position and rewrites the dict literals in the rule module
 import ast, importlib, os, re, subprocess, sys, json
 VERIF = os.path.dirname(os.path.dirname(os.path.abspath(__file__)))
 sys.path.insert(0, VERIF)
-MODS = {'c08': 'AUDIT', 'c09': 'PO5_AUDIT', 'c11': 'AUDIT', 'c12': 'AUDIT', 'c19': 'PO6_AUDIT', 'c14': 'round2:PO8_AUDIT'}
+MODS = {'c08': 'AUDIT', 'c09': 'PO5_AUDIT', 'c11': 'AUDIT', 'c12': 'AUDIT', 'c19': 'PO6_AUDIT', 'c14': 'round2:PO8_AUDIT', 'c04': 'round4:PO9_AUDIT'}
 
 WORKER = r'''
 import sys, json
